@@ -164,7 +164,7 @@ def main():
                 'A case is one (declarations, document, lookup sequence); all are non-trivial; distinct = distinct set of (match, use) pairs.')
     chk.assumptions = ['the brute-force defining expression is evaluated by the library itself in the same run (XPath correctness is C02)', 'the reference interpreter gives a second opinion on the counts']
     chk.ensure('plain', 'xvdrv')
-    n = 2500 if chk.tier == 'quick' else 80000
+    n = 6000 if chk.tier == 'quick' else 80000
     chk.run_cases('c15', 'case', range(n))
     chk.finish(min_nontrivial=100, required_stats=('lookups_with_results', 'agree_with_reference'))
 
